@@ -185,8 +185,15 @@ Section Pass1.
         end
     end.
 
-  (* the loop of ReadData1 *)
-  Fixpoint pass1 (fuel : nat) (l : list byte) (acc : list created) : list created * status :=
+  (* InstMgr::Append(): the name 0 stands for "none" and is replaced by the next free one; the manager
+     remembers the greatest name it has held (ids: the names it holds, mx: maxFileId) *)
+  Definition next_id (mx : Z) : Z := if (mx <? 0)%Z then 1%Z else (mx + 1)%Z.
+  Definition mgr_append (ids : list Z) (mx : Z) (id : Z) : list Z * Z :=
+    let '(stored, mx1) := if (id =? 0)%Z then (next_id mx, next_id mx) else (id, mx) in
+    (ids ++ [stored], Z.max mx1 stored).
+
+  (* the loop of ReadData1; acc: the instances as CreateInstance returned them *)
+  Fixpoint pass1 (fuel : nat) (l : list byte) (acc : list created) (ids : list Z) (mx : Z) : list created * status :=
     match fuel with
     | O => (acc, Unmodelled)
     | S f =>
@@ -198,15 +205,16 @@ Section Pass1.
         | c :: r =>
           if negb (c =? HASH) then (acc, Unmodelled)                       (* recovery through FindStartOfInstance *)
           else
-            let '(made, rest, st) := create_instance (map cid acc) r in
+            let '(made, rest, st) := create_instance ids r in
             let acc' := acc ++ match made with Some m => [m] | None => [] end in
+            let '(ids', mx') := match made with Some m => mgr_append ids mx (cid m) | None => (ids, mx) end in
             match st with
             | Done =>
               match rest with
               | None => (acc', Bad)
               | Some r1 =>
                 let '(es, r2) := found_endsec r1 in
-                if es then (acc', Done) else pass1 f r2 acc'
+                if es then (acc', Done) else pass1 f r2 acc' ids' mx'
               end
             | _ => (acc', st)
             end
@@ -216,7 +224,7 @@ Section Pass1.
 
   Definition read_data1 (l : list byte) : list created * status :=
     let '(es, r) := found_endsec l in
-    if es then ([], Done) else pass1 (S (length l)) r [].
+    if es then ([], Done) else pass1 (S (length l)) r [] [] (-1)%Z.
 End Pass1.
 
 (* ------------------------------------------------------------------------------------------
@@ -244,7 +252,7 @@ Definition kw_start_ok (c : byte) : bool :=
 
 Definition sinst_ok (i : sinst) (next : list byte) : bool :=
   seps_ok (si_s0 i) && seps_ok (si_s1 i) && seps_ok (si_s2 i) && seps_ok (si_s3 i)
-  && forallb is_digit (si_ds i) && negb (Nat.eqb (length (si_ds i)) 0) && (ival (si_ds i) <=? INT_MAX)%Z
+  && forallb is_digit (si_ds i) && negb (ival (si_ds i) =? 0)%Z && (ival (si_ds i) <=? INT_MAX)%Z
   && forallb is_alnum_us (si_kw i) && head_is kw_start_ok (si_kw i)
   && negb (head_is is_alnum_us (srender (si_rec i) ++ [SEMI]))
   && stoks_ok (si_rec i) (SEMI :: next).
@@ -326,7 +334,7 @@ Definition cinst_body (i : cinst) : list byte :=
 
 Definition cinst_ok (i : cinst) (next : list byte) : bool :=
   seps_ok (ci_s0 i) && seps_ok (ci_s1 i) && seps_ok (ci_s2 i) && seps_ok (ci_s3 i)
-  && forallb is_digit (ci_ds i) && negb (Nat.eqb (length (ci_ds i)) 0) && (ival (ci_ds i) <=? INT_MAX)%Z
+  && forallb is_digit (ci_ds i) && negb (ival (ci_ds i) =? 0)%Z && (ival (ci_ds i) <=? INT_MAX)%Z
   && forallb is_space (ci_ws0 i) && forallb cpart_ok (ci_parts i) && Nat.leb (length (ci_parts i)) 63
   && stoks_ok (ci_rec i) (SEMI :: next).
 
